@@ -86,7 +86,10 @@ type Case struct {
 	// down); both errors must be in the final list.
 	Err2 bool `json:"err2,omitempty"`
 	// Poll: every callback reads loop.Errors() when it begins (a monitor polling the list).
-	Poll       bool   `json:"poll,omitempty"`
+	Poll bool `json:"poll,omitempty"`
+	// ErrAll: every callback invocation after the ErrAt-th fails with an error of its own (all the
+	// callbacks that are in flight when the loop is stopped fail); each of them must be in the list.
+	ErrAll     bool   `json:"err_all,omitempty"`
 	ReadDirErr string `json:"readdir_err"` // "-": none; else listing this (cleaned) directory fails
 	Gomaxprocs int    `json:"gomaxprocs"`
 	GraceUs    int    `json:"grace_us"`
@@ -187,6 +190,10 @@ func Gen(rt *rapid.T) Case {
 	if hx.Chance(rt, 14, "cberr") {
 		c.ErrAt = hx.Uniform(rt, 6, "errat")
 		c.Err2 = hx.Chance(rt, 45, "err2")
+		if !c.Err2 && hx.Chance(rt, 40, "errall") {
+			c.ErrAll = true
+			c.Poll = true
+		}
 	} else if hx.Chance(rt, 8, "rderr") {
 		c.ReadDirErr = ""
 		if len(dirs) > 0 && hx.Chance(rt, 70, "rdd") {
@@ -424,6 +431,7 @@ func run(c Case) hx.Verdict {
 		cbErr2    = &injected{"INJECTED-SECOND-CALLBACK-ERROR"}
 		cbErrHit  int32
 		cbErr2Hit int32
+		allErrs   []string     // tags of the errors returned in ErrAll mode
 		loopRef   atomic.Value // *fsloop.Loop once it exists
 	)
 	poll := func() {
@@ -463,6 +471,15 @@ func run(c Case) hx.Verdict {
 				if c.Err2 {
 					time.Sleep(120 * time.Microsecond) // give the next callback time to begin
 				}
+			}
+			if c.ErrAt >= 0 && c.ErrAll && int(k) > c.ErrAt {
+				tag := fmt.Sprintf("INJECTED-ERROR-OF-CALLBACK-%d", k)
+				poll()
+				mu.Lock()
+				allErrs = append(allErrs, tag)
+				mu.Unlock()
+				err = &injected{tag}
+				poll()
 			}
 			if c.ErrAt >= 0 && c.Err2 && int(k) == c.ErrAt+1 {
 				time.Sleep(500 * time.Microsecond) // the first failure is recorded meanwhile
@@ -548,7 +565,7 @@ func run(c Case) hx.Verdict {
 			return hx.Fail("unselected", "%s callback ran for %q which the filters do not select (or does not exist)", e.kind, e.path)
 		}
 	}
-	injectedErr := cbErrHit > 0 || cbErr2Hit > 0 || src.rdErrHit > 0
+	injectedErr := cbErrHit > 0 || cbErr2Hit > 0 || src.rdErrHit > 0 || len(allErrs) > 0
 	hasTag := func(tag string) bool {
 		for _, e := range errs {
 			if e != nil && strings.Contains(e.Error(), tag) {
@@ -565,6 +582,14 @@ func run(c Case) hx.Verdict {
 	}
 	if cbErr2Hit > 0 && cbErrHit > 0 {
 		v.Label("two-callback-errors-with-a-read-of-the-list-between")
+	}
+	for _, tag := range allErrs {
+		if !hasTag(tag) {
+			return hx.Fail("error-lost", "%d callbacks that were in flight when the loop was stopped returned an error each while the error list was being read; the error %s is not in Errors() (%d entries)", len(allErrs)+1, tag, len(errs))
+		}
+	}
+	if len(allErrs) >= 2 {
+		v.Label("many-callback-errors-while-the-list-is-read")
 	}
 	if c.Poll {
 		v.Label("error-list-polled-during-the-walk")
